@@ -154,6 +154,7 @@ func (f *ForeignNode) EnsureSK(prec, expire time.Duration, forceNew bool) (int64
 
 // RotateIK inserts a new intermediate key for part under a usable system key (external rotation).
 func (f *ForeignNode) RotateIK(part string, prec, expire time.Duration) (int64, []byte, bool) {
+	f.w.Faults.Fired["peer.rotates-key"]++
 	skc, sk, _ := f.EnsureSK(prec, expire, false)
 	if sk == nil {
 		return 0, nil, false
@@ -203,6 +204,7 @@ func (f *ForeignNode) Write(part string, payload []byte) *Rec {
 // (id, created) the SDK is about to store (the SDK's insert must then be refused and the SDK must
 // adopt the stored key).
 func (f *ForeignNode) InsertSame(id string, created int64, isIK bool) bool {
+	f.w.Faults.Fired["peer.inserts-same-stamp"]++
 	if _, exists := f.w.Store.Rows[id][created]; exists {
 		return false
 	}
